@@ -55,6 +55,9 @@ def find_watcher(facts):
     return out
 
 
+DCS = {'n0': 'dcA', 'n1': 'dcB', 'n2': 'dcC', 'n3': 'dcD', 'n4': 'dcB', 'n5': 'dcC'}       # (each node's data centre: used by the selector-actor summary)
+
+
 def make_member(facts, madt, n, a):
     cells = []
     for f in facts.adts[madt]['variants'][0]['fields']:
@@ -63,7 +66,7 @@ def make_member(facts, madt, n, a):
         elif 'SocketAddr' in f['ty']:
             cells.append(Cell(('addr', a)))
         elif f['ty'] in ('alloc::string::String',) or f['ty'].startswith('alloc::borrow::Cow<'):
-            cells.append(Cell(('key', 'dc1')))
+            cells.append(Cell(('key', DCS.get(n, 'dc1'))))
         else:
             cells.append(Cell(('opaque', 'member-field:' + f['name'])))
     return ('adt', madt, 0, cells)
@@ -97,6 +100,7 @@ class WatcherWorld(World):
         self.handle_types = handle_types
         self.tick = 0
         self.published = []
+        self.selector_payloads = []
         self.fields = [f['name'] for f in facts.adts[DELTA]['variants'][0]['fields']]
 
     def snapshot(self, i):
@@ -127,6 +131,8 @@ class WatcherWorld(World):
                 return None
             raise Unmodelled('%s on the delta channel' % name)
         # the other handles the watcher owns (selector, network, statistics): effects outside this property
+        if name.startswith('datacake') and seg == 'set_nodes' and 'NodeSelectorHandle' in name and len(args) == 2:
+            self.selector_payloads.append((self.tick, args[1]))         # (what the selector actor is told: read by selactor_abs)
         if name.startswith('datacake'):
             cal = self.facts.body(strip_generics(name))
             owner = strip_generics(name).rsplit('::', 1)[0]
@@ -146,7 +152,7 @@ class WatcherWorld(World):
         return None
 
 
-def run_watcher(facts, entry, ups):
+def run_watcher(facts, entry, ups, want_payloads=False):
     madt = member_adt(facts)
     handle_types = {ty_head(t) for t in ups.values() if t.startswith('datacake')}
 
@@ -170,6 +176,8 @@ def run_watcher(facts, entry, ups):
         n = max(upv) + 1
         st = ('closure', entry.defp, [Cell(upv.get(i, ('opaque', 'u'))) for i in range(n)])
         it.run_body(entry, [st, ('opaque', 'cx')])
+        if want_payloads:
+            return it.oracle_log, (list(world.published), list(world.selector_payloads))
         return it.oracle_log, list(world.published)
     return absint.explore(run)
 
